@@ -58,7 +58,7 @@ def run(ctx):
                 return "MinND dim %d overload %d: worse than the best starting vertex" % (bad["dim"], bad["overload"])
             if not bad["stateok"]:
                 return "MinND dim %d overload %d: reported state inconsistent with the objective" % (bad["dim"], bad["overload"])
-            return "MinND bowl: fractional-range termination away from the minimiser"
+            return "MinND bowl fixed-stream case %d" % bad.get("case", -1)
         return str(e)
 
     ctx.validate_collect("Trace_Min", trace, key_of,
